@@ -35,33 +35,40 @@ GATE = [None]
 
 
 class GatedFile:
-    """File (or mmap) proxy: seek and readline are gated, everything else is delegated."""
+    """File (or mmap) proxy: every operation that reads or moves the position of the underlying file object is gated (asks
+    the driver for permission first), everything else is delegated.  Whatever way the code reads a line - seek + readline,
+    tell + find + slice, read(n) - the driver decides the interleaving; a different number of gated steps than the
+    model has is tolerated by run_schedule."""
+
+    GATED = ("seek", "readline", "read", "readinto", "readlines", "tell", "find", "rfind", "read_byte", "write", "truncate")
 
     def __init__(self, real):
         object.__setattr__(self, "_real", real)
 
-    def seek(self, *a):
+    def _gated(self, fn, *a, **k):
         g = GATE[0]
         if g is None:
-            return self._real.seek(*a)
+            return fn(*a, **k)
         g.ask()
         try:
-            return self._real.seek(*a)
-        finally:
-            g.ack()
-
-    def readline(self, *a):
-        g = GATE[0]
-        if g is None:
-            return self._real.readline(*a)
-        g.ask()
-        try:
-            return self._real.readline(*a)
+            return fn(*a, **k)
         finally:
             g.ack()
 
     def __getattr__(self, name):
-        return getattr(self._real, name)
+        v = getattr(self._real, name)
+        if name in GatedFile.GATED and callable(v):
+            return lambda *a, **k: self._gated(v, *a, **k)
+        return v
+
+    def __setattr__(self, name, value):
+        setattr(self._real, name, value)
+
+    def __getitem__(self, i):
+        return self._gated(self._real.__getitem__, i)
+
+    def __len__(self):
+        return len(self._real)
 
     def __enter__(self):
         return self
@@ -70,7 +77,13 @@ class GatedFile:
         self._real.close()
 
     def __iter__(self):
-        return iter(self._real)
+        return self
+
+    def __next__(self):
+        line = self._gated(self._real.readline)
+        if not line:
+            raise StopIteration
+        return line
 
 
 def install(files_mod):
